@@ -15,6 +15,7 @@ class StreamHandler(BackpressureApi, metaclass=ABCMeta):
         self.stream_id: Optional[int] = None
         self.socket = socket
         self._initial_request_n = MAX_REQUEST_N
+        self._finished = False
 
     @abstractmethod
     def setup(self):
@@ -44,4 +45,5 @@ class StreamHandler(BackpressureApi, metaclass=ABCMeta):
         self.socket.send_frame(to_request_n_frame(self.stream_id, n))
 
     def _finish_stream(self):
+        self._finished = True
         self.socket.finish_stream(self.stream_id)
